@@ -100,7 +100,14 @@ class RegexGenerator:
                 exclude_letters += "".join(self._generate_literal(x) for x in range(min_ord,
                                                                                     max_ord + 1))
             elif opcode == CATEGORY:
-                exclude_letters += self._get_category_alphabet(val)
+                # exclude what the category matches, not what it is generated from
+                self._get_category_alphabet(val)
+                if val == CATEGORY_DIGIT:
+                    exclude_letters += "".join(x for x in self._alphabet["letters"]
+                                               if x.isdecimal())
+                else:
+                    exclude_letters += "".join(x for x in self._alphabet["letters"]
+                                               if x.isalnum() or x == "_")
             else:
                 exclude_letters += self._generate(opcode, val)
 
